@@ -1135,7 +1135,7 @@ package mast
 
 
 //@ func (*mastNode).store
-//@ tags C02 C03 C08 C11 C13 C15
+//@ tags C02 C03 C08 C11 C13 C15 C17
 //@ waive guard/cowelem.elem#7 writing the child's name into node.Link[i] after the recursive call needs to know that the recursive call did not mark this node shared, i.e. that no node is its own descendant (tree shape, T3, not proved)
 //@ modifies W G.durable Arr.Any Node.*@fresh mastNode.dirty mastNode.shared mastNode.source mastNode.expected@fresh Box.Any@fresh Box.Int@fresh Box.Bytes@fresh Box.BS@fresh Box.S_mastNode@fresh
 //@ uses bytes
